@@ -458,8 +458,7 @@ def decodeDecoders (opts : DecOpts) (ver : Nat) (mesh : Mesh) (posAtt : Option N
     decodeDecoders opts ver mesh posAtt all rest done'
 
 /-- `PointCloudDecoder::DecodePointAttributes` of `MeshEdgebreakerDecoder` -/
-def decodeAttributes (opts : DecOpts) (mesh : Mesh) : DecM (List Attribute) := do
-  let ver ← version
+def decodeAttributes (opts : DecOpts) (ver : Nat) (mesh : Mesh) : DecM (List Attribute) := do
   let numDecoders ← rdU8
   let decoders ← createAttributeDecoders ver mesh.atts.size numDecoders
   alloc "decoder.attributes_decoders" (8 * numDecoders)
@@ -483,9 +482,11 @@ def facesOf (mesh : Mesh) : List (Nat × Nat × Nat) :=
 /-- body of an Edgebreaker mesh stream after the header and the metadata:
     `InitializeDecoder`, `DecodeGeometryData` (connectivity), `DecodePointAttributes` -/
 def decodeEdgebreaker (opts : DecOpts) : DecM Geometry := do
+  -- `bitstream_version()` of the decoder: set once from the header, the same for the whole body
+  let ver ← version
   let mesh ← decodeConnectivity
   for t in tagsOf mesh.tags do tag t
-  let atts ← decodeAttributes opts mesh
+  let atts ← decodeAttributes opts ver mesh
   pure { isMesh := true, numPoints := mesh.numPoints, faces := facesOf mesh, atts := atts }
 
 end Draco.Eb
